@@ -90,24 +90,53 @@ def with_strict(srcs):
 
 # ===================================================================================================
 # Known findings on the unchanged tree: narrow syntactic exclusions (pinned witnesses in known/C01.ndjson)
-_ex(r'\bisNaN\s*\(', 'calls of isNaN(...) (rewritten to x!=x: wrong for non-number operands)')
-_ex(r'\bMath\s*\.\s*trunc\s*\(', 'calls of Math.trunc(...) (rewritten to x|0: wrong beyond int32, NaN, -0)')
-_ex(r'\bMath\s*\.\s*abs\s*\(', 'calls of Math.abs(...) (rewritten to x<0?-x:x: wrong for -0 and non-numbers)')
+_ex(r'\bisNaN\s*\(', 'K02 calls of isNaN(...) (rewritten to x!=x: wrong for non-number operands)')
+_ex(r'\bMath\s*\.\s*trunc\s*\(', 'K03 calls of Math.trunc(...) (rewritten to x|0: wrong beyond int32, NaN, -0)')
+_ex(r'\bMath\s*\.\s*abs\s*\(', 'K04 calls of Math.abs(...) (rewritten to x<0?-x:x: wrong for -0 and non-numbers)')
 _ex(r'\breturn\b[^;{}]*\b(undefined|void\s*\(?\s*0\s*\)?)\s*;?\s*\}',
-    'a function body ending in `return ...,undefined` / `return void 0` after expression statements (return a,b,void 0 -> return a,b)')
-_ex(_paren_optchain, 'a parenthesised optional chain continued by a member/call ((a?.b.c).d -> a?.b.c.d)')
-_ex(r'(null|undefined|void\s*0)[^;\n]*\?[^;\n]*:[^;\n]*`', 'a nullish-test conditional with a tagged template branch (-> a?.`tpl`, SyntaxError)')
-_ex(r'\belse\s*\{\s*(let|const|class)\b', 'an else-block that declares let/const/class after an if-branch ending in a flow statement '
-                                          '(block is merged into the enclosing scope: redeclaration / leaked global lexical binding)')
+    'K01 a function body ending in `return ...,undefined` / `return void 0` after expression statements (return a,b,void 0 -> return a,b)')
+_ex(_paren_optchain, 'K06 a parenthesised optional chain continued by a member/call ((a?.b.c).d -> a?.b.c.d)')
+_ex(r'(null|undefined|void\s*0)[^;\n]*\?[^;\n]*:[^;\n]*`', 'K07 a nullish-test conditional with a tagged template branch (-> a?.`tpl`, SyntaxError)')
+_ex(r'\belse\s*\{[^{}]*\b(let|const|class)\b', 'K08 an else-block that declares let/const/class after an if-branch ending in a flow statement '
+                                               '(block is merged into the enclosing scope: redeclaration / leaked global lexical binding)')
 
 
 def needs_nobig(src):
-    """Math.pow(a,b) is rewritten to a**b, which differs for BigInt operands (known finding): environments of
+    """K05 Math.pow(a,b) is rewritten to a**b, which differs for BigInt operands (known finding): environments of
     programs that mention Math.pow carry no BigInt values; BigInt literals with Math.pow are excluded."""
     return bool(re.search(r'\bMath\s*\.\s*pow\b', src))
 
 
-_ex(r'\bMath\s*\.\s*pow\s*\([^;\n]*\d_?n\b', 'Math.pow applied to BigInt literals (Math.pow(a,b) -> a**b: TypeError becomes a value for BigInt operands)')
+_ex(r'\bMath\s*\.\s*pow\s*\([^;\n]*\d_?n\b', 'K05 Math.pow applied to BigInt literals (Math.pow(a,b) -> a**b: TypeError becomes a value for BigInt operands)')
+_ex(r'\bMath\s*\.\s*pow\s*\([^;\n]*\.\.\.', 'K05b Math.pow with a spread argument (Math.pow(a,...b) -> a**b)')
+_ex(r'\(\s*[-+]?[0-9.][0-9a-fA-FxXoObBn_.]*([eE][-+]?\d+)?\s*\)\s*\.', 'K09 a parenthesised numeric literal followed by a member access ((1n).b -> 1n..b, (1.0).b -> 1.b: SyntaxError)')
+_ex(r'\(\s*async\s*\)\s*of\b', 'K10 for((async) of ...) (parentheses dropped: SyntaxError)')
+_ex(r'(\)|\belse)\s*\{\s*(async\s+)?function\b', 'K11 a block whose first statement is a function declaration as body of if/else/loop (braces dropped: SyntaxError in strict mode)')
+_ex(r'catch\s*\(\s*(\w+)\s*\)\s*\{[^}]*\bvar\s+\1\b', 'K12 catch(b){var b=...} (catch parameter and var of the same name are renamed apart / binding dropped)')
+_ex(r'[{,]\s*(undefined|Infinity)\s*[,}]|\b(undefined|Infinity)\s*(=(?!=)|\+\+|--|[-+*/%&|^]=|<<=|>>=|\*\*=)|(\+\+|--)\s*(undefined|Infinity)\b',
+    'K13 undefined/Infinity as shorthand property or assignment/update target ({undefined} -> {0[0]}, Infinity=1 -> 1/0=1: SyntaxError)')
+_EMPTY = r"""(?:""|'')"""
+_ex(r"""(?<![\\"'\w])""" + _EMPTY + r"""(?=\s*\?(?![.?]))|\b(if|while)\s*\(\s*[!(\s]*""" + _EMPTY + r"""[)\s]*\)|!\s*\(*\s*""" + _EMPTY +
+    r"""|[?:]\s*\(*""" + _EMPTY + r"""\s*\)*\s*[:;)]""",
+    'K14 the empty string literal as a condition (treated as truthy: ""?a:b -> a)')
+_ex(r'0[xX][0-9a-fA-F_]*[eEbB][0-9a-fA-F_]*n?\s*(\?|\)|&&|\|\||:)|!\s*0[xX][0-9a-fA-F_]*[eEbB]|\d[eE]-\d{3,}',
+    'K15 hexadecimal literals containing e/E/b/B digits and underflowing decimals as conditions (0xe?a:b -> b, 1e-400?a:b -> a)')
+_ex(r'function\b[^(]*\([^)]*\b(undefined|NaN|Infinity)\b[^)]*\)\s*\{|\b(var|let|const)\s+([^;=]*,\s*)?(undefined|NaN|Infinity)\b|'
+    r'\(([^()]*)\b(undefined|NaN|Infinity)\b[^()]*\)\s*=>|\b(undefined|NaN|Infinity)\s*=>',
+    'K16 local bindings named undefined/NaN/Infinity (treated as the global constants)')
+_ex(r'\bvoid\s*\(?\s*(class\b|[\w.$]+\s*([-+*/%<>&|^]|instanceof\b|in\b|[!=]=)|[-+~!]|typeof\b|[\[{`])|'
+    r'\bif\s*\(\s*[^;{}()]*[-+*/%<>&|^!~=][^;{}()]*\)\s*(;|\{\s*\})\s*(?!else)|\{\s*(let|const)\s+\w+\s*=\s*[^;{}]*[-+*/%<>&|^!~][^;{}]*;?\s*\}',
+    'K17 operator/class/literal expressions in discarded position (void X, if(X);, {let x=X}) - dropped although they can call '
+    'valueOf/throw/run static initialisers')
+_ex(r'(\|\||&&|\?\?)=', 'K19 logical assignment operators ||= &&= ??= (missing from the precedence tables: a||=(b,c) -> a||=b,c; '
+                        'not counted as side effect: void(a||=b) -> void 0)')
+_ex(r"""(-|\*|/|%)\s*("[^"\n]*"|'[^'\n]*')\s*\+\s*["'`]""", 'K18 string literal + string literal after a non-additive operator (a-"1"+"2" -> a+"12")')
+_ex(r'\bvar\s+let\b|\(\s*let\b|\blet\s*[.(`:]|function\s+let\b|\blet\s*\[[^\]]*\]\s*($|[^=\s]|=\S*=)|\bin\s+let\b|\blet\s*\n\s*\[', 'K20 `let` used as an identifier')
+_ex(r'class\b[^{]*\{[^}]*\basync\s*\n', 'K21 class field named async followed by a newline (parsed as async method)')
+_ex(r'\\u005[cC]|\\u\{0*5[cC]\}', 'K22a \\u005c / \\u{5c} in string literals (decoded to an unescaped backslash)')
+_ex(r'\\[23][0-7][0-7]', 'K22b legacy octal escapes \\200..\\377 in string literals (written as one raw byte: invalid UTF-8)')
+_ex(r'\\00+[0-9]|\\0[89]', 'K22c \\00 / \\000 / \\0 followed by a digit in string literals (\\0007 -> \\07; \\09 inside a template)')
+_ex(r'\bstatic\s+[0-9.]', 'K23 static class fields with numeric names (static 1=2 -> static1=2)')
 
 # ===================================================================================================
 # Operator table transcribed from ECMA-262 (13th ed., sections 13.5-13.16), NOT from js/util.go:
